@@ -33,13 +33,112 @@ def normal_payload(body, local):
     return must_derive(body, local, is_src)
 
 
+def r16_1_iterator_form(prog, rep, gp):
+    """get_extracted_path written with iterator adapters: `if components.clone().any(|c| c == ParentDir) { return None }` followed by
+    `dst.extend(components.filter_map(|c| match c { Normal(p) => Some(p), .. => None }))`. Returns False when the function does not have that shape
+    (the caller then reports the missing switch)."""
+    clos = prog.closures_of(gp)
+    anys = [b for b in gp.calls() if b.term.cmethod == 'any' and b.term.ctrait == 'std::iter::Iterator']
+    exts = [b for b in gp.calls() if b.term.cmethod == 'extend' and 'PathBuf' in (cnorm(b.term) + b.term.callee.get('self_ty', '') + b.term.cargs)]
+    if len(anys) != 1 or len(exts) != 1:
+        return False
+    an, ex = anys[0], exts[0]
+    key = 'R16.1|%s|' % gp.nkey
+
+    def closure_of(op):
+        if op.place is None:
+            return None
+        for d in gp.defs.get(op.place[0], []):
+            if d[2] == 'assign' and d[3].rv.r == 'aggregate' and d[3].rv.j.get('closure'):
+                c = [x for x in clos if x.defpath == d[3].rv.j.get('closure')]
+                return c[0] if c else None
+        return None
+
+    def from_name_components(local):
+        o = origins(gp, [local])
+        return 2 in o.params and any(gp.blocks[c].term.cmethod == 'components' for c in o.calls)
+    # (1) the `any` test looks for ParentDir among the components of file_name, and its true edge reaches no Some(_)
+    ca = closure_of(an.term.args[1])
+    okp = ca is not None and an.term.args[0].place is not None and from_name_components(an.term.args[0].place[0])
+    if okp:
+        rep.fn(ca)
+        cmp_pd = False
+        for b in ca.calls():
+            if b.term.cmethod in ('eq', 'ne') and 'Component' in b.term.cargs:
+                for a in b.term.args:
+                    o2 = origins(ca, [a.place[0]], through_calls=False) if a.place is not None else None
+                    for bl2 in ca.blocks:
+                        for st2 in bl2.stmts:
+                            if st2.kind == 'assign' and o2 is not None and st2.place[0] in o2.locals and st2.rv.r == 'use' and st2.rv.ops[0].kind == 'const' and \
+                                    (st2.rv.ops[0].k or {}).get('promoted_variant', '').endswith('Component::ParentDir'):
+                                cmp_pd = b.term.cmethod
+        for sbb, si in arm_of_enum_switch(prog, ca, adt='std::path::Component'):
+            if enum_arm_target(si, 'ParentDir') is not None and enum_arm_target(si, 'ParentDir') != si['otherwise']:
+                cmp_pd = 'match'
+        okp = cmp_pd in ('eq', 'match')
+    somes = [(b.idx, i) for b in gp.blocks if not b.cleanup for i, st in enumerate(b.stmts)
+             if st.kind == 'assign' and st.place == (0, ()) and st.rv.r == 'aggregate' and st.rv.j.get('variant') == 'Some']
+    rep.floor('R16.1', len(somes), 1, 'Some(_) results of get_extracted_path')
+    guard = None
+    for bl in gp.blocks:
+        r = branch_on_call(prog, gp, bl.idx)
+        if r and r[0] == an.idx or (r and r[1] is an.term):
+            guard = (bl.idx, r[2], r[3])
+    okg = guard is not None and not any(bb in gp.reachable(guard[1]) for bb, _ in somes) and all(gp.edge_dominates((guard[0], guard[2]), bb) for bb, _ in somes)
+    rep.ob('R16.1', bool(okp and okg), key + 'parentdir-refuses', "a '..' among the components of the name returns None before any path is built" if (okp and okg) else
+           "a name containing '..' can still yield Some(path) (any(ParentDir) test missing, not on the name's components, or not leading to None)", gp.loc(an.idx))
+    rep.ob('R16.1', okp, key + 'iterates-name-components', 'the test and the path construction iterate Path::new(file_name).components()' if okp else 'the ParentDir test does not iterate the components of file_name', gp.loc(an.idx))
+    # (2) the destination is only extended with Normal payloads, over the components of the same name
+    cf_ = None
+    eo = origins(gp, [ex.term.args[1].place[0]]) if ex.term.args[1].place is not None else None
+    fm = [gp.blocks[c] for c in (eo.calls if eo else []) if gp.blocks[c].term.cmethod == 'filter_map' and gp.blocks[c].term.ctrait == 'std::iter::Iterator']
+    okx = len(fm) == 1 and eo is not None and 2 in eo.params and any(gp.blocks[c].term.cmethod == 'components' for c in eo.calls) and \
+        not [gp.blocks[c].term.cmethod for c in eo.calls if gp.blocks[c].term.cmethod in ('chain', 'flat_map', 'map', 'rev', 'cycle', 'once', 'repeat')]
+    if okx:
+        cf_ = closure_of(fm[0].term.args[1])
+        okx = cf_ is not None
+    if okx:
+        rep.fn(cf_)
+        for bl in cf_.blocks:
+            for st in bl.stmts:
+                if st.kind == 'assign' and st.rv.r == 'aggregate' and st.rv.j.get('variant') == 'Some' and 'Option' in (st.rv.j.get('adt') or ''):
+                    op = st.rv.ops[0]
+                    if op.place is None or not normal_payload(cf_, op.place[0]):
+                        okx = False
+    rep.ob('R16.1', bool(okx), key + 'path-mutation|extend', 'destination path extended only with the payloads of Normal components (filter_map closure)' if okx else
+           'destination path extended with something else than Normal components of the name', gp.loc(ex.idx))
+    # (3) base path and other mutations
+    okd = True
+    for bb, i in somes:
+        st = gp.blocks[bb].stmts[i]
+        op = st.rv.ops[0]
+        owners = [l for l in origins(gp, [op.place[0]], through_calls=False).locals if gp.lty(l) == 'std::path::PathBuf'] if op.place else []
+        okd = okd and len(set(owners)) >= 1
+        for l in set(owners):
+            for (b2, si2, kind, obj) in gp.defs.get(l, []):
+                if kind == 'call':
+                    if not (obj.cmethod == 'to_path_buf' and obj.args[0].place is not None and must_derive(gp, obj.args[0].place[0], lambda k, ob, b3: k == 'param' and ob == 1)):
+                        okd = False
+                elif kind == 'assign' and obj.rv.r == 'use' and obj.rv.ops[0].place is not None and obj.rv.ops[0].place[0] in owners:
+                    continue
+                else:
+                    okd = False
+            for (b2, t, ai) in mutarg_defs(gp).get(l, []):
+                if b2 != ex.idx:
+                    okd = False
+    rep.ob('R16.1', okd, key + 'path-base-is-output_dir', 'returned path = output_dir.to_path_buf() extended once' if okd else 'returned path is not built from output_dir (or is modified elsewhere)', gp.loc())
+    return True
+
+
 def run(prog, rep, tier):
     mlar = prog.crates['mlar']
     # ---------------- R16.1 component filter
     gp = one_body(prog, rep, 'R16.1', 'mlar', exact='get_extracted_path')
     if gp is not None and gp.kind != 'Closure':
         sws = arm_of_enum_switch(prog, gp, adt='std::path::Component')
-        if len(sws) != 1:
+        if not sws and r16_1_iterator_form(prog, rep, gp):
+            pass
+        elif len(sws) != 1:
             rep.ob('R16.1', False, 'R16.1|%s|component-switch' % gp.nkey, 'expected one switch on std::path::Component, found %d' % len(sws), gp.loc())
         else:
             sbb, si = sws[0]
